@@ -41,6 +41,30 @@ def _has_str_subclass_key(vals: List[Any]) -> bool:
     return any(walk(v) for v in vals)
 
 
+def _some_str_subclass_keyed_dict_fits(vals: List[Any], k: int) -> bool:
+    """Is there a dict keyed by str-subclass instances that get_type would turn into a TypedDict under limit k (all keys
+    strings and identifiers, at most k of them)? Only such a dict can reach the open finding (a TypedDict that later falls
+    back to Dict[str, ...]); a dict that never is a TypedDict must keep its key class."""
+    import keyword
+
+    found = []
+
+    def walk(v: Any) -> None:
+        if isinstance(v, dict):
+            if v and all(isinstance(x, str) for x in v) and any(type(x) is not str for x in v):
+                if k > 0 and len(v) <= k and all(x.isidentifier() and not keyword.iskeyword(x) for x in v):
+                    found.append(v)
+            for x in v.values():
+                walk(x)
+        elif isinstance(v, (list, tuple, set, frozenset)):
+            for x in v:
+                walk(x)
+
+    for v in vals:
+        walk(v)
+    return bool(found)
+
+
 def judge(res: Result, case: Dict[str, Any], vals: List[Any], typ, k: int, get_type, shrink_types) -> None:
     n = len(vals)
     per = [typ(p) for p in range(n)]
@@ -62,7 +86,7 @@ def judge(res: Result, case: Dict[str, Any], vals: List[Any], typ, k: int, get_t
         full_sig = f"{arm}:{'_'.join(sig)}"
         if "[k]: class str is not the exact runtime class" in why and _has_str_subclass_key(vals):
             # input class of the failing case: a dict keyed by instances of a proper str subclass, reported with key class str
-            full_sig = "str-subclass-dict-key-reported-as-str"
+            full_sig = "str-subclass-dict-key-reported-as-str" if _some_str_subclass_keyed_dict_fits(vals, k) else "str-subclass-dict-key-reported-as-str:dict-that-never-was-a-typed-dict"
         res.violate(Violation(ID, "loose", full_sig, case, f"{O.show(T)} — {why}"))
         return
     res.outcomes.add(hash(O.struct(T)))
